@@ -194,6 +194,25 @@ func runLin(seed uint64, scale int, out string, _ string) *summary {
 			sum.fail("C20", "evictions-concurrent", "Evictions / EvictionWeight differ from the automatic removals the cache reported",
 				fmt.Sprintf("lin case %d bounded=%v maximum=%d: evictions=%d evictionWeight=%d automatic removals reported=%d", cn, bounded, maximum, snap.Evictions, snap.EvictionWeight, autoAll.Load()))
 		}
+		// C20 under concurrency: every GetIfPresent / Compute / ComputeIfAbsent / ComputeIfPresent call is one
+		// lookup and records exactly one hit or one miss, whatever it raced with (the churner only writes)
+		{
+			lookups := 0
+			for g := range ops {
+				for _, o := range ops[g] {
+					switch o.kind {
+					case "GIP", "CMP", "CIA", "CIP":
+						if !o.panicked {
+							lookups++
+						}
+					}
+				}
+			}
+			if snap := counter.Snapshot(); int(snap.Hits+snap.Misses) != lookups {
+				sum.fail("C20", "lookups-concurrent", "hits + misses differ from the number of lookups performed",
+					fmt.Sprintf("lin case %d bounded=%v keys=%d goroutines=%d: hits=%d misses=%d lookups=%d", cn, bounded, nkeys, G, snap.Hits, snap.Misses, lookups))
+			}
+		}
 		// final values (a read at the very end)
 		all := []linOp{}
 		for g := range ops {
